@@ -2,58 +2,74 @@
 
    The mirrors joined here: Model.Includes (C19: FileStack, the parse_files
    loop — which files are read, the FileLibrary with its user flags, the OS /
-   include / parse error reports), Model.FrontStages (third pass: the version
-   check and the main-component match of parser/src/lib.rs mirrored there; the
-   desugaring stage = Model.Desugar, C18; the error values of generate_cfg =
-   Model.LiftFull, C13, and the chain Model.PipelineMirrors, C01) and
-   Model.Runner (C03: caches, writers, filters, exit status), by Model.Front
-   (errors.rs `into_report`, FileLibrary::user_inputs, the hand-over in
-   cli/src/main.rs).  The file system (any type of paths with decidable
-   equality, any canon, is_dir, is_file, read_dir, join, parent, file_name,
-   ext_circom, starts_dot, has_sep, content with canon idempotent), the command
-   line, the -L list, what the parser yields for the files that were read
-   (pragma, has_main, the program [pr] with the syntax trees of its
-   definitions), the compiler version, the report codes, the hash orders and
-   budgets of the chain, the reports of the stages outside the mirrors
-   ([rest]), what lifting / SSA / the passes produce besides the error
-   ([after]), the options and the analysis order are universally quantified.
+   include / parse error reports), Model.FrontStages (the version check and the
+   main-component match of parser/src/lib.rs; fourth pass: the `definitions`
+   map of parse_files, Merger::add_definitions over the files as run by
+   ProgramArchive::new / duplicate_definitions, and TemplateLibrary::new, all
+   three mirrored there; the desugaring stage = Model.Desugar, C18; the error
+   values of generate_cfg = Model.LiftFull, C13, and the chain
+   Model.PipelineMirrors, C01) and Model.Runner (C03: caches, writers, filters,
+   exit status), by Model.Front (errors.rs `into_report`,
+   FileLibrary::user_inputs, the hand-over in cli/src/main.rs).
 
-   Of the ten failure classes of the property text (Spec.NoSilentSpec)
-   EIGHT are derived (class_derivation c = Derived): a named path that cannot be
-   opened, a file whose content cannot be read, a named file that does not
-   parse, an include of a named file that resolves nowhere (second pass), and
-   — third pass — an unsupported compiler version, several main components,
-   a template / function of a named file the desugarer rejects (invalid tuple
-   or anonymous component), a repeated parameter name.  For these the event
-   ([failure_event]) is a fact about the file system / the syntax trees; that
-   the error report is in the project handed to the runner, that it is error
-   level, with a location that passes the file filter, is derived.
-   LiftFailure is DerivedUpToLocation: the event is that the mirrors of
-   into_cfg / into_ssa answer with InvalidVariableNameError /
-   UndefinedVariableError for a definition of a named file; existence, level and
-   code of the report are derived, the file id inside the error value (not
-   returned by those mirrors: parameter [err_file]) is asked to be absent or
-   the definition's own file.  DuplicateDefinition (ProgramArchive::new, no
-   mirror) is Assumed: NO class theorem; once such a report exists with error
-   level, C02_error_report_displayed (the runner's filter law) applies, and
-   that the real stage produces it is covered by the injection matrix of
-   lib/props/C02.py only.
-   That errors.rs gives the reports the category, the code and the primary
-   file ids Model.Front.report_of / Model.FrontStages.item_report say is
-   compared on every project of the matrix (engine front). *)
+   The PROGRAM IS NOT A FREE VARIABLE.  The theorems about a run speak of
+   [FrontStages.tied_project]: the library handed to the desugarer and the
+   runner is [program_of lib (all_definitions content defs_of (ps_files s))] —
+   what TemplateLibrary::new keeps (the first definition of every name, one
+   name space for templates and functions) of the definitions of the files of
+   the FileLibrary that parse, in the order of the file ids, then source order
+   — and the reports of Merger::add_definitions over the same definitions are
+   in the report collection.
+
+   Parameters (universally quantified): the file system (any type of paths
+   with decidable equality, any canon, is_dir, is_file, read_dir, join, parent,
+   file_name, ext_circom, starts_dot, has_sep, content with canon idempotent),
+   the command line, the -L list; THE PARSER PER FILE — for a file that parses
+   its version pragma [pragma], whether it has a main component [has_main],
+   its definitions with their syntax trees in source order [defs_of], and the
+   line tables [lib]; the compiler version, the report codes, the hash orders
+   and budgets of the chain; [rest'], the reports of the one stage no mirror
+   covers (the anonymous-main check); what lifting / SSA / the passes produce
+   besides the error ([after]); the options and the analysis order.
+
+   All TEN failure classes of the property text (Spec.NoSilentSpec) have their
+   class theorem (C02_failure_classes_reported).  NINE are Derived: a named
+   path that cannot be opened, a file whose content cannot be read, a named
+   file that does not parse, an include of a named file that resolves nowhere,
+   an unsupported compiler version, several main components, a template /
+   function of a named file the desugarer rejects (invalid tuple or anonymous
+   component), a repeated parameter name, and — fourth pass — a duplicated
+   definition: two definitions of one name among the definitions of the files
+   read, one of them in a named file (a function and a template of the same
+   name included).  For these the event ([failure_event_tied]) is a fact about
+   the file system / the syntax trees; that the error report is in the project
+   handed to the runner, that it is error level, with a location that passes
+   the file filter, is derived.  LiftFailure is DerivedUpToLocation: the event
+   is that the mirrors of into_cfg / into_ssa answer with
+   InvalidVariableNameError / UndefinedVariableError for a definition of a
+   named file; existence, level and code of the report are derived, the file
+   id inside the error value (not returned by those mirrors: parameter
+   [err_file]) is asked to be absent or the definition's own file.
+   That errors.rs / program_merger.rs give the reports the category, the code
+   and the primary file ids Model.Front.report_of /
+   Model.FrontStages.item_report say, and that the definitions handed on are
+   those of [keep_first], is compared on every project of the matrix (engine
+   front). *)
 From Coq Require Import ZArith NArith Permutation Ascii String.
 Require Import Gen.Category Model.Runner Spec.RunnerSpec Proofs.RunnerProofs.
 From stdpp Require Import list strings.
 Require Import Model.Includes Model.Front Model.FrontStages Spec.IncludesSpec Spec.NoSilentSpec Proofs.NoSilentProofs.
 Require Model.Ast Model.Desugar Model.LiftFull Model.PipelineMirrors Spec.ExpandSpec.
-Require Proofs.NoSilentStages Proofs.DesugarErrLoc.
+Require Proofs.NoSilentStages Proofs.DesugarErrLoc Proofs.NoSilentMerger.
 
-(* the nine failure classes with a derivation (class_derivation c <> Assumed:
-   all but DuplicateDefinition): the report of the event is displayed, it is
-   error level, and the exit status is 1 — unless that very id is allow-listed.
-   The event is a statement about the file system, the FileLibrary and the
-   syntax trees only (for LiftFailure also about the file id inside the error
-   value, see above). *)
+(* all ten failure classes, on the project tied to the files that were read:
+   the report of the event is displayed, it is error level, and the exit
+   status is 1 — unless that very id is allow-listed.  The event is a
+   statement about the file system, the FileLibrary and the syntax trees the
+   parser yields for the files read only (for LiftFailure also about the file
+   id inside the error value, see above); for DuplicateDefinition: two
+   definitions of one name in [all_definitions], the first of them the first
+   of that name, one of the two in a named file. *)
 Theorem C02_failure_classes_reported :
   forall (path : Type) (EqDecision0 : EqDecision path)
          (canon : path -> option path) (is_dir is_file : path -> bool)
@@ -69,26 +85,26 @@ Theorem C02_failure_classes_reported :
            (dfuel fuel : nat) (argv libs : list path) (s : parse_state),
       parse_files canon is_dir is_file read_dir join parent file_name ext_circom starts_dot has_sep content
                   false dfuel fuel argv libs = Base.Ok s ->
-      forall (pr : PM.program) (sd : Desugar.desugared) (rest : list Runner.report),
-        sugar_input pr = Desugar.DOk sd ->
+      forall (lib : list (list N)) (defs_of : path -> list PM.definition) (sd : Desugar.desugared)
+             (rest' : list Runner.report),
+        sugar_input (program_of lib (all_definitions content defs_of (ps_files s))) = Desugar.DOk sd ->
         forall (o : opts) (order : list key) (c : failure_class) (r : Runner.report),
-          class_derivation c <> Assumed ->
-          wf_project (stage_project content pragma has_main cv pf_id pf_name cs spay ord horder prime kv kd err_file name_id after payload s pr sd rest) ->
-          analysis_order (stage_project content pragma has_main cv pf_id pf_name cs spay ord horder prime kv kd err_file name_id after payload s pr sd rest) order ->
-          failure_event canon is_dir is_file read_dir join parent file_name ext_circom starts_dot has_sep content pf_id pf_name payload pragma has_main cv cs spay ord horder prime kv kd err_file argv libs s pr sd rest c r ->
+          wf_project (tied_project content pragma has_main cv pf_id pf_name cs spay ord horder prime kv kd err_file name_id after payload s lib defs_of sd rest') ->
+          analysis_order (tied_project content pragma has_main cv pf_id pf_name cs spay ord horder prime kv kd err_file name_id after payload s lib defs_of sd rest') order ->
+          failure_event_tied canon is_dir is_file read_dir join parent file_name ext_circom starts_dot has_sep content pf_id pf_name payload pragma has_main cv cs spay ord horder prime kv kd err_file argv libs s lib defs_of sd rest' c r ->
           ~ In (r_id r) (o_allow o) ->
-          In r (res_shown (run_keys (stage_project content pragma has_main cv pf_id pf_name cs spay ord horder prime kv kd err_file name_id after payload s pr sd rest) o order)) /\
+          In r (res_shown (run_keys (tied_project content pragma has_main cv pf_id pf_name cs spay ord horder prime kv kd err_file name_id after payload s lib defs_of sd rest') o order)) /\
           r_level r = Error /\
-          res_exit (run_keys (stage_project content pragma has_main cv pf_id pf_name cs spay ord horder prime kv kd err_file name_id after payload s pr sd rest) o order) = 1%Z.
-Proof. exact @derived_classes_reported. Qed.
+          res_exit (run_keys (tied_project content pragma has_main cv pf_id pf_name cs spay ord horder prime kv kd err_file name_id after payload s lib defs_of sd rest') o order) = 1%Z.
+Proof. exact @NoSilentMerger.tied_classes_reported. Qed.
 Print Assumptions C02_failure_classes_reported.
 
 (* the events are not hypothetical: a named file that does not parse, an
    include statement of a named file that resolves nowhere, a template / a
-   function of a named file that `remove_syntactic_sugar` does not hand on has
-   its event (for a path that cannot be opened, an unreadable file, a pragma,
-   two main components, a repeated parameter the event is the fact itself,
-   see Spec.NoSilentSpec) *)
+   function the library keeps, of a named file, that `remove_syntactic_sugar`
+   does not hand on has its event (for a path that cannot be opened, an
+   unreadable file, a pragma, two main components, a repeated parameter, a
+   duplicated definition the event is the fact itself, see Spec.NoSilentSpec) *)
 Theorem C02_front_failures_have_reports :
   forall (path : Type) (EqDecision0 : EqDecision path)
          (canon : path -> option path) (is_dir is_file : path -> bool)
@@ -103,26 +119,27 @@ Theorem C02_front_failures_have_reports :
            (dfuel fuel : nat) (argv libs : list path) (s : parse_state),
       parse_files canon is_dir is_file read_dir join parent file_name ext_circom starts_dot has_sep content
                   false dfuel fuel argv libs = Base.Ok s ->
-      forall (pr : PM.program) (sd : Desugar.desugared) (rest : list Runner.report),
-        sugar_input pr = Desugar.DOk sd ->
+      forall (lib : list (list N)) (defs_of : path -> list PM.definition) (sd : Desugar.desugared)
+             (rest' : list Runner.report),
+        sugar_input (program_of lib (all_definitions content defs_of (ps_files s))) = Desugar.DOk sd ->
         (forall f, named canon is_dir read_dir join ext_circom argv f -> content f = Unparsable ->
-           exists r, failure_event canon is_dir is_file read_dir join parent file_name ext_circom starts_dot has_sep content pf_id pf_name payload pragma has_main cv cs spay ord horder prime kv kd err_file argv libs s pr sd rest SyntaxError r) /\
+           exists r, failure_event_tied canon is_dir is_file read_dir join parent file_name ext_circom starts_dot has_sep content pf_id pf_name payload pragma has_main cv cs spay ord horder prime kv kd err_file argv libs s lib defs_of sd rest' SyntaxError r) /\
         (forall f incs p a b,
            named canon is_dir read_dir join ext_circom argv f -> content f = Parsed incs -> (p, a, b) ∈ incs ->
            resolves canon is_file join parent file_name starts_dot has_sep f
                     (the_libraries canon is_dir ext_circom libs) p None ->
-           exists r, failure_event canon is_dir is_file read_dir join parent file_name ext_circom starts_dot has_sep content pf_id pf_name payload pragma has_main cv cs spay ord horder prime kv kd err_file argv libs s pr sd rest UnresolvedInclude r) /\
+           exists r, failure_event_tied canon is_dir is_file read_dir join parent file_name ext_circom starts_dot has_sep content pf_id pf_name payload pragma has_main cv cs spay ord horder prime kv kd err_file argv libs s lib defs_of sd rest' UnresolvedInclude r) /\
         (forall n body fid,
-           In (n, body) (PM.named_bodies (PM.pr_templates pr)) -> body_in_file fid body ->
+           In (n, body) (PM.named_bodies (PM.pr_templates (program_of lib (all_definitions content defs_of (ps_files s))))) -> body_in_file fid body ->
            file_is_named canon is_dir read_dir join ext_circom argv s (Z.of_N fid) ->
            ~ In n (map fst (Desugar.d_templates sd)) ->
-           exists r, failure_event canon is_dir is_file read_dir join parent file_name ext_circom starts_dot has_sep content pf_id pf_name payload pragma has_main cv cs spay ord horder prime kv kd err_file argv libs s pr sd rest InvalidTupleOrAnonymous r) /\
+           exists r, failure_event_tied canon is_dir is_file read_dir join parent file_name ext_circom starts_dot has_sep content pf_id pf_name payload pragma has_main cv cs spay ord horder prime kv kd err_file argv libs s lib defs_of sd rest' InvalidTupleOrAnonymous r) /\
         (forall n body fid,
-           In (n, body) (PM.named_bodies (PM.pr_functions pr)) -> body_in_file fid body ->
+           In (n, body) (PM.named_bodies (PM.pr_functions (program_of lib (all_definitions content defs_of (ps_files s))))) -> body_in_file fid body ->
            file_is_named canon is_dir read_dir join ext_circom argv s (Z.of_N fid) ->
            ~ In n (map fst (Desugar.d_functions sd)) ->
-           exists r, failure_event canon is_dir is_file read_dir join parent file_name ext_circom starts_dot has_sep content pf_id pf_name payload pragma has_main cv cs spay ord horder prime kv kd err_file argv libs s pr sd rest InvalidTupleOrAnonymous r).
-Proof. exact @front_failures_have_reports. Qed.
+           exists r, failure_event_tied canon is_dir is_file read_dir join parent file_name ext_circom starts_dot has_sep content pf_id pf_name payload pragma has_main cv cs spay ord horder prime kv kd err_file argv libs s lib defs_of sd rest' InvalidTupleOrAnonymous r).
+Proof. exact @NoSilentMerger.tied_front_failures_have_reports. Qed.
 Print Assumptions C02_front_failures_have_reports.
 
 (* exit status 0 ("No issues found.") with the parse-failure id not allow-listed
@@ -146,34 +163,35 @@ Theorem C02_clean_only_if_all_read_and_analysed :
            (dfuel fuel : nat) (argv libs : list path) (s : parse_state),
       parse_files canon is_dir is_file read_dir join parent file_name ext_circom starts_dot has_sep content
                   false dfuel fuel argv libs = Base.Ok s ->
-      forall (pr : PM.program) (sd : Desugar.desugared) (rest : list Runner.report),
-        sugar_input pr = Desugar.DOk sd ->
+      forall (lib : list (list N)) (defs_of : path -> list PM.definition) (sd : Desugar.desugared)
+             (rest' : list Runner.report),
+        sugar_input (program_of lib (all_definitions content defs_of (ps_files s))) = Desugar.DOk sd ->
         forall (o : opts) (order : list key),
-          wf_project (stage_project content pragma has_main cv pf_id pf_name cs spay ord horder prime kv kd err_file name_id after payload s pr sd rest) ->
-          analysis_order (stage_project content pragma has_main cv pf_id pf_name cs spay ord horder prime kv kd err_file name_id after payload s pr sd rest) order ->
-          res_exit (run_keys (stage_project content pragma has_main cv pf_id pf_name cs spay ord horder prime kv kd err_file name_id after payload s pr sd rest) o order) = 0%Z ->
+          wf_project (tied_project content pragma has_main cv pf_id pf_name cs spay ord horder prime kv kd err_file name_id after payload s lib defs_of sd rest') ->
+          analysis_order (tied_project content pragma has_main cv pf_id pf_name cs spay ord horder prime kv kd err_file name_id after payload s lib defs_of sd rest') order ->
+          res_exit (run_keys (tied_project content pragma has_main cv pf_id pf_name cs spay ord horder prime kv kd err_file name_id after payload s lib defs_of sd rest') o order) = 0%Z ->
           ~ In pf_id (o_allow o) ->
           all_named_read canon is_dir is_file read_dir join parent file_name ext_circom starts_dot has_sep content
                          argv libs s /\
-          (forall d, In d (stage_defs pf_id pf_name cs spay ord horder prime kv kd err_file name_id after pr sd) ->
+          (forall d, In d (stage_defs pf_id pf_name cs spay ord horder prime kv kd err_file name_id after (program_of lib (all_definitions content defs_of (ps_files s))) sd) ->
              file_is_named canon is_dir read_dir join ext_circom argv s (d_file d) ->
              In (MAnalyzing (d_key d))
-                (res_log (run_keys (stage_project content pragma has_main cv pf_id pf_name cs spay ord horder prime kv kd err_file name_id after payload s pr sd rest) o order)) /\
+                (res_log (run_keys (tied_project content pragma has_main cv pf_id pf_name cs spay ord horder prime kv kd err_file name_id after payload s lib defs_of sd rest') o order)) /\
              (forall e, d_err d = Some e -> r_level e = Error ->
                         not_in_included_only canon is_dir read_dir join ext_circom argv s e ->
                         In (r_id e) (o_allow o))).
-Proof. exact @clean_only_if_all_read_and_analysed. Qed.
+Proof. exact @NoSilentMerger.tied_clean_only_if_all_read_and_analysed. Qed.
 Print Assumptions C02_clean_only_if_all_read_and_analysed.
 
 (* exit status 0 with none of the error codes of the mirrored stages
    allow-listed only if, besides: every file that was reached asks for a
    supported compiler version or for none; at most one of them has a main
-   component; the desugarer handed on every template and every function of the
-   named files; and every definition of a named file that is handed to the
-   runner was taken up, does not repeat a parameter name, and was answered
-   with no error by the mirrors of into_cfg / into_ssa (unless the id of that
-   error is allow-listed, or the file id inside the error value points into
-   another file) *)
+   component; the desugarer handed on every template and every function the
+   library keeps of the named files; and every definition of a named file that
+   is handed to the runner was taken up, does not repeat a parameter name, and
+   was answered with no error by the mirrors of into_cfg / into_ssa (unless
+   the id of that error is allow-listed, or the file id inside the error value
+   points into another file) *)
 Theorem C02_clean_only_if_stages_passed :
   forall (path : Type) (EqDecision0 : EqDecision path)
          (canon : path -> option path) (is_dir is_file : path -> bool)
@@ -189,25 +207,108 @@ Theorem C02_clean_only_if_stages_passed :
            (dfuel fuel : nat) (argv libs : list path) (s : parse_state),
       parse_files canon is_dir is_file read_dir join parent file_name ext_circom starts_dot has_sep content
                   false dfuel fuel argv libs = Base.Ok s ->
-      forall (pr : PM.program) (sd : Desugar.desugared) (rest : list Runner.report),
-        sugar_input pr = Desugar.DOk sd ->
+      forall (lib : list (list N)) (defs_of : path -> list PM.definition) (sd : Desugar.desugared)
+             (rest' : list Runner.report),
+        sugar_input (program_of lib (all_definitions content defs_of (ps_files s))) = Desugar.DOk sd ->
         forall (o : opts) (order : list key),
-          wf_project (stage_project content pragma has_main cv pf_id pf_name cs spay ord horder prime kv kd err_file name_id after payload s pr sd rest) ->
-          analysis_order (stage_project content pragma has_main cv pf_id pf_name cs spay ord horder prime kv kd err_file name_id after payload s pr sd rest) order ->
-          res_exit (run_keys (stage_project content pragma has_main cv pf_id pf_name cs spay ord horder prime kv kd err_file name_id after payload s pr sd rest) o order) = 0%Z ->
+          wf_project (tied_project content pragma has_main cv pf_id pf_name cs spay ord horder prime kv kd err_file name_id after payload s lib defs_of sd rest') ->
+          analysis_order (tied_project content pragma has_main cv pf_id pf_name cs spay ord horder prime kv kd err_file name_id after payload s lib defs_of sd rest') order ->
+          res_exit (run_keys (tied_project content pragma has_main cv pf_id pf_name cs spay ord horder prime kv kd err_file name_id after payload s lib defs_of sd rest') o order) = 0%Z ->
           (forall z, In z (stage_ids cs) -> ~ In z (o_allow o)) ->
           all_stages_passed canon is_dir is_file read_dir join parent file_name ext_circom starts_dot has_sep content
-                            pragma has_main cv argv libs s pr sd /\
-          (forall dd, In dd (handed_on pr sd) ->
+                            pragma has_main cv argv libs s (program_of lib (all_definitions content defs_of (ps_files s))) sd /\
+          (forall dd, In dd (handed_on (program_of lib (all_definitions content defs_of (ps_files s))) sd) ->
              def_in_named_file canon is_dir read_dir join ext_circom argv s dd ->
              In (MAnalyzing (runner_kind (PM.d_kind dd), name_id (PM.d_name dd)))
-                (res_log (run_keys (stage_project content pragma has_main cv pf_id pf_name cs spay ord horder prime kv kd err_file name_id after payload s pr sd rest) o order)) /\
+                (res_log (run_keys (tied_project content pragma has_main cv pf_id pf_name cs spay ord horder prime kv kd err_file name_id after payload s lib defs_of sd rest') o order)) /\
              (LiftFull.is_block (PM.d_body dd) = true -> List.NoDup (PM.d_params dd)) /\
              (forall e, lift_outcome ord horder prime kv kd dd = Some e -> e <> LEParamCollision ->
                         err_file dd = None \/ err_file dd = PM.d_pfile dd ->
                         In (r_id (item_report pf_id pf_name cs spay (SILiftError dd e (err_file dd)))) (o_allow o))).
-Proof. exact @clean_only_if_stages_passed. Qed.
+Proof. exact @NoSilentMerger.tied_clean_only_if_stages_passed. Qed.
 Print Assumptions C02_clean_only_if_stages_passed.
+
+(* "... exit 0 only when every definition in it was analysed": exit status 0,
+   with none of the error codes of the mirrored stages nor SameSymbolDeclaredTwice
+   allow-listed, only if EVERY DEFINITION THE PARSER YIELDS FOR A NAMED FILE that
+   parses was taken up by the runner (its `analyzing` line is in the log) —
+   the definitions of the named files themselves, not the elements of some
+   program.  [defs_file_ok]: the definitions of the i-th file of the
+   FileLibrary carry the file id i (the parser's `Parameters::from(.., file_id,
+   ..)`); [bodies_in_file]: every meta of a body lies in the file of its
+   definition (`FillMeta::fill(file_id, ..)`); both are evaluated on every
+   explored project (sv_defs_file_ok, sv_metas_ok of the extracted instance) *)
+Theorem C02_clean_only_if_every_definition_analysed :
+  forall (path : Type) (EqDecision0 : EqDecision path)
+         (canon : path -> option path) (is_dir is_file : path -> bool)
+         (read_dir : path -> option (list path)) (join : path -> path -> path)
+         (parent : path -> path) (file_name : path -> option path)
+         (ext_circom starts_dot has_sep : path -> bool) (content : path -> file_content path),
+    (forall p c, canon p = Some c -> canon c = Some c) ->
+    forall (pf_id pf_name : Z) (payload : Includes.report (path:=path) -> Z)
+           (pragma : path -> option version) (has_main : path -> bool) (cv : version) (cs : codes)
+           (spay : stage_item path -> Z) (ord : nat -> list nat -> list nat) (horder : list nat -> list nat)
+           (prime : Z) (kv kd : nat) (err_file : PM.definition -> option N)
+           (name_id : String.string -> Z) (after : PM.definition -> def)
+           (dfuel fuel : nat) (argv libs : list path) (s : parse_state),
+      parse_files canon is_dir is_file read_dir join parent file_name ext_circom starts_dot has_sep content
+                  false dfuel fuel argv libs = Base.Ok s ->
+      forall (lib : list (list N)) (defs_of : path -> list PM.definition) (sd : Desugar.desugared)
+             (rest' : list Runner.report),
+        sugar_input (program_of lib (all_definitions content defs_of (ps_files s))) = Desugar.DOk sd ->
+        forall (o : opts) (order : list key),
+          wf_project (tied_project content pragma has_main cv pf_id pf_name cs spay ord horder prime kv kd err_file name_id after payload s lib defs_of sd rest') ->
+          analysis_order (tied_project content pragma has_main cv pf_id pf_name cs spay ord horder prime kv kd err_file name_id after payload s lib defs_of sd rest') order ->
+          res_exit (run_keys (tied_project content pragma has_main cv pf_id pf_name cs spay ord horder prime kv kd err_file name_id after payload s lib defs_of sd rest') o order) = 0%Z ->
+          (forall z, In z (stage_ids cs) -> ~ In z (o_allow o)) ->
+          ~ In (c_id (c_same_symbol cs)) (o_allow o) ->
+          defs_file_ok content s defs_of ->
+          bodies_in_file content s defs_of ->
+          forall (i : nat) (f : path) (u : bool) (d : PM.definition),
+            ps_files s !! i = Some (f, u) ->
+            named canon is_dir read_dir join ext_circom argv f ->
+            parses content f = true ->
+            In d (defs_of f) ->
+            In (MAnalyzing (runner_kind (PM.d_kind d), name_id (PM.d_name d)))
+               (res_log (run_keys (tied_project content pragma has_main cv pf_id pf_name cs spay ord horder prime kv kd err_file name_id after payload s lib defs_of sd rest') o order)).
+Proof. exact @NoSilentMerger.clean_only_if_every_definition_analysed. Qed.
+Print Assumptions C02_clean_only_if_every_definition_analysed.
+
+(* the boolean the extracted instance evaluates on every run decides [defs_file_ok] *)
+Theorem C02_defs_file_ok_decided :
+  forall (path : Type) (content : path -> file_content path) (s : parse_state (path:=path))
+         (defs_of : path -> list PM.definition),
+    defs_file_ok_from content defs_of 0 (ps_files s) = true -> defs_file_ok content s defs_of.
+Proof. exact @NoSilentMerger.defs_file_ok_decided. Qed.
+Print Assumptions C02_defs_file_ok_decided.
+
+(* the mirror of Merger::add_definitions over the files: of two definitions of
+   one name the second is reported, with the first definition of that name as
+   the other label (templates and functions share the name space: only
+   [PM.d_name] is compared); and nothing else is reported: every item is the
+   report of a definition whose name another definition of the list has *)
+Theorem C02_merger_reports_duplicates :
+  forall (path : Type) (all : list PM.definition),
+    (forall l1 d1 l2 d2 l3,
+       all = l1 ++ d1 :: l2 ++ d2 :: l3 ->
+       PM.d_name d1 = PM.d_name d2 -> (forall x, In x l1 -> PM.d_name x <> PM.d_name d1) ->
+       In (SIDuplicate d2 d1) (merger_items (path:=path) all)) /\
+    (forall it, In it (merger_items (path:=path) all) ->
+       exists d first, it = SIDuplicate d first /\ In d all /\ In first all /\ PM.d_name first = PM.d_name d).
+Proof. exact (fun path all => conj (@NoSilentMerger.merger_reports_duplicates path all) (@NoSilentMerger.merger_items_sound path all)). Qed.
+Print Assumptions C02_merger_reports_duplicates.
+
+(* the mirror of TemplateLibrary::new: the first definition of every name is
+   kept, the names kept are pairwise different, every definition kept is one
+   of those that went in *)
+Theorem C02_library_keeps_first :
+  forall all : list PM.definition,
+    (forall l1 d1 l3, all = l1 ++ d1 :: l3 -> (forall x, In x l1 -> PM.d_name x <> PM.d_name d1) ->
+                      In d1 (keep_first all)) /\
+    List.NoDup (map PM.d_name (keep_first all)) /\
+    (forall x, In x (keep_first all) -> In x all).
+Proof. exact NoSilentMerger.library_keeps_first. Qed.
+Print Assumptions C02_library_keeps_first.
 
 (* the desugarer (C18's mirror Model.Desugar): the error report it raises for a
    template body, and every report it pushes for a function body, is located
@@ -293,32 +394,6 @@ Theorem C02_clean_only_if_all_analysed : forall p o order,
 Proof. exact NoSilentProofs.clean_only_if_all_analysed. Qed.
 Print Assumptions C02_clean_only_if_all_analysed.
 
-(* the summary line belongs to the exit status *)
-Theorem C02_exit_zero_iff_nothing_displayed : forall p o order,
-  wf_project p -> analysis_order p order ->
-  (res_exit (run_keys p o order) = 0%Z <-> res_shown (run_keys p o order) = []) /\
-  (res_exit (run_keys p o order) = 0%Z \/ res_exit (run_keys p o order) = 1%Z).
-Proof. exact exit_zero_iff_nothing_displayed. Qed.
-Print Assumptions C02_exit_zero_iff_nothing_displayed.
-
-(* known finding C02-duplicate-definition-library (D22): TemplateLibrary::new
-   overwrites silently; with a duplicated name one user definition is dropped
-   and the run can still end with exit status 0 *)
-Theorem C02_KF_duplicate_definition_refuted :
-  exists srcs user o order d,
-    KF_duplicate_definition_b srcs = true /\ In d srcs /\ user_def_b user d = true /\
-    analysis_order (mkProject [] (build_library srcs) user) order /\
-    ~ In d (build_library srcs) /\
-    res_exit (run_keys (mkProject [] (build_library srcs) user) o order) = 0%Z.
-Proof. exact duplicate_definition_dropped_silently. Qed.
-Print Assumptions C02_KF_duplicate_definition_refuted.
-
-(* outside that class nothing is dropped: the library is the list of sources *)
-Theorem C02_no_definition_dropped : forall srcs,
-  KF_duplicate_definition_b srcs = false -> build_library srcs = srcs.
-Proof. exact build_library_nodup. Qed.
-Print Assumptions C02_no_definition_dropped.
-
 (* ---- non-vacuity ----------------------------------------------------------
    A concrete file system run through the extracted instance
    (Includes.run_project): `circomspect b.circom a.circom nosuch.circom bad.circom`
@@ -359,7 +434,7 @@ Proof.
 Qed.
 
 (* the hypotheses of C02_failure_classes_reported are satisfiable on that file
-   system for seven of the eight derived classes and for LiftFailure: the named path nosuch.circom
+   system for nine of the ten classes (all but UnreadableFile): the named path nosuch.circom
    cannot be canonicalised; bad.circom, file id 0, does not parse; the include
    of x.circom in a.circom, file id 1, resolves nowhere; a.circom asks for
    circom 3.0.0 (the compiler version being 2.1.4); a.circom and b.circom both
@@ -368,12 +443,14 @@ Qed.
    a.circom is `f(a, a)`; the function g of a.circom is
    `function g(a) { var yy; return yy; }` (the syntax tree the parser yields for
    it), for which the chain of lifting and SSA mirrors answers with
-   UndefinedVariableError (evaluated) *)
+   UndefinedVariableError (evaluated); b.circom, file id 2, defines a template T
+   as well: the second definition of that name among the definitions of the
+   files read (bad.circom yields none), the first being that of a.circom *)
 Definition ex_pragma (p : spath) : option version :=
   if decide (p = str "/r/a.circom") then Some (3, 0, 0) else Some (2, 0, 0).
 Definition ex_main (p : spath) : bool := true.
 Definition ex_cs : codes :=
-  Codes (Code 1003 1003) (Code 1004 1004) (Code 1002 1002) (Code 2002 2002) (Code 2001 2001) (Code 3002 3002) (Code 2003 2003).
+  Codes (Code 1003 1003) (Code 1004 1004) (Code 1002 1002) (Code 2002 2002) (Code 2001 2001) (Code 3002 3002) (Code 2003 2003) (Code 4001 4001).
 Definition ex_spay (it : stage_item spath) : Z := 9.
 Definition ex_ord (n : nat) (l : list nat) : list nat := l.
 Definition ex_horder (l : list nat) : list nat := l.
@@ -391,57 +468,68 @@ Definition ex_g_body : Ast.statement :=
      Ast.Return (ex_mk 24 34) (Ast.Variable_ (ex_mk 31 33) "yy" [])].
 Definition ex_g : PM.definition := PM.Def "g" Ir.KFunction ["a"%string] (Some 1%N) (11%N, 12%N) ex_g_body.
 Definition ex_name2 (n : String.string) : Z := if String.eqb n "g" then 8 else 7.
-Definition ex_pr : PM.program := PM.Program [[0%N]; [0%N]; [0%N]] [ex_T] [ex_f; ex_g].
+Definition ex_m2 : Ast.meta := Ast.Meta 0 1 (Some 2%N).
+Definition ex_T2 : PM.definition := PM.Def "T" Ir.KTemplate [] (Some 2%N) (0%N, 0%N) (Ast.Block ex_m2 []).
+Definition ex_lib : list (list N) := [[0%N]; [0%N]; [0%N]].
+(* what the parser yields per file *)
+Definition ex_defs_of (p : spath) : list PM.definition :=
+  if decide (p = str "/r/a.circom") then [ex_T; ex_f; ex_g]
+  else if decide (p = str "/r/b.circom") then [ex_T2] else [].
+(* the state [run_project false ex_fs ex_argv []] ends in *)
+Definition ex_s : parse_state (path:=spath) :=
+  {| ps_stack := FileStack (Some (str "/r")) [str "/r/b.circom"; str "/r/a.circom"; str "/r/bad.circom"]
+                   [str "/r/bad.circom"; str "/r/a.circom"; str "/r/b.circom"] [] [];
+     ps_files := [(str "/r/bad.circom", true); (str "/r/a.circom", true); (str "/r/b.circom", true)];
+     ps_reports := [FileOsError (str "nosuch.circom"); ParsingError 0; IncludeError (str "x.circom") (Some 1) 21 40];
+     ps_read := [str "/r/bad.circom"; str "/r/a.circom"; str "/r/b.circom"] |}.
 Definition ex_r0 : Desugar.report := Desugar.Report Desugar.RCTupleError Desugar.MTupleCond 0 1 1 Desugar.LProblem.
 Definition ex_sd : Desugar.desugared :=
   Desugar.Desugared [] [("f"%string, ex_f_body); ("g"%string, ex_g_body)] [ex_r0].
 
 Example C02_events_satisfiable :
-  sugar_input ex_pr = Desugar.DOk ex_sd /\
-  exists s, run_project false ex_fs ex_argv [] = Base.Ok s /\
-    wf_project (stage_project (d_content ex_fs) ex_pragma ex_main (2, 1, 4) 1000 1000 ex_cs ex_spay ex_ord ex_horder 7%Z 0 0 PM.d_pfile
-                     ex_name2 ex_after ex_pay s ex_pr ex_sd []) /\
-    analysis_order (stage_project (d_content ex_fs) ex_pragma ex_main (2, 1, 4) 1000 1000 ex_cs ex_spay ex_ord ex_horder 7%Z 0 0 PM.d_pfile
-                     ex_name2 ex_after ex_pay s ex_pr ex_sd []) [(KFunction, 7%Z); (KFunction, 8%Z)] /\
-    failure_event (d_canon ex_fs) (d_is_dir ex_fs) (d_is_file ex_fs) (d_read_dir ex_fs) s_join s_parent s_file_name
+  run_project false ex_fs ex_argv [] = Base.Ok ex_s /\
+  all_definitions (d_content ex_fs) ex_defs_of (ps_files ex_s) = [ex_T; ex_f; ex_g; ex_T2] /\
+  sugar_input (program_of ex_lib (all_definitions (d_content ex_fs) ex_defs_of (ps_files ex_s))) = Desugar.DOk ex_sd /\
+  wf_project (tied_project (d_content ex_fs) ex_pragma ex_main (2, 1, 4) 1000 1000 ex_cs ex_spay ex_ord ex_horder 7%Z 0 0 PM.d_pfile ex_name2 ex_after ex_pay ex_s ex_lib ex_defs_of ex_sd []) /\
+  analysis_order (tied_project (d_content ex_fs) ex_pragma ex_main (2, 1, 4) 1000 1000 ex_cs ex_spay ex_ord ex_horder 7%Z 0 0 PM.d_pfile ex_name2 ex_after ex_pay ex_s ex_lib ex_defs_of ex_sd []) [(KFunction, 7%Z); (KFunction, 8%Z)] /\
+    failure_event_tied (d_canon ex_fs) (d_is_dir ex_fs) (d_is_file ex_fs) (d_read_dir ex_fs) s_join s_parent s_file_name
                   s_ext_circom s_starts_dot s_has_sep (d_content ex_fs) 1000 1000 ex_pay ex_pragma ex_main (2, 1, 4) ex_cs ex_spay
-                  ex_ord ex_horder 7%Z 0 0 PM.d_pfile ex_argv [] s ex_pr ex_sd [] MissingFile (mkReport Error 1000 1000 [] 1) /\
-    failure_event (d_canon ex_fs) (d_is_dir ex_fs) (d_is_file ex_fs) (d_read_dir ex_fs) s_join s_parent s_file_name
+                  ex_ord ex_horder 7%Z 0 0 PM.d_pfile ex_argv [] ex_s ex_lib ex_defs_of ex_sd [] MissingFile (mkReport Error 1000 1000 [] 1) /\
+    failure_event_tied (d_canon ex_fs) (d_is_dir ex_fs) (d_is_file ex_fs) (d_read_dir ex_fs) s_join s_parent s_file_name
                   s_ext_circom s_starts_dot s_has_sep (d_content ex_fs) 1000 1000 ex_pay ex_pragma ex_main (2, 1, 4) ex_cs ex_spay
-                  ex_ord ex_horder 7%Z 0 0 PM.d_pfile ex_argv [] s ex_pr ex_sd [] SyntaxError (mkReport Error 1000 1000 [0%Z] 2) /\
-    failure_event (d_canon ex_fs) (d_is_dir ex_fs) (d_is_file ex_fs) (d_read_dir ex_fs) s_join s_parent s_file_name
+                  ex_ord ex_horder 7%Z 0 0 PM.d_pfile ex_argv [] ex_s ex_lib ex_defs_of ex_sd [] SyntaxError (mkReport Error 1000 1000 [0%Z] 2) /\
+    failure_event_tied (d_canon ex_fs) (d_is_dir ex_fs) (d_is_file ex_fs) (d_read_dir ex_fs) s_join s_parent s_file_name
                   s_ext_circom s_starts_dot s_has_sep (d_content ex_fs) 1000 1000 ex_pay ex_pragma ex_main (2, 1, 4) ex_cs ex_spay
-                  ex_ord ex_horder 7%Z 0 0 PM.d_pfile ex_argv [] s ex_pr ex_sd [] UnresolvedInclude (mkReport Error 1000 1000 [1%Z] 3) /\
-    failure_event (d_canon ex_fs) (d_is_dir ex_fs) (d_is_file ex_fs) (d_read_dir ex_fs) s_join s_parent s_file_name
+                  ex_ord ex_horder 7%Z 0 0 PM.d_pfile ex_argv [] ex_s ex_lib ex_defs_of ex_sd [] UnresolvedInclude (mkReport Error 1000 1000 [1%Z] 3) /\
+    failure_event_tied (d_canon ex_fs) (d_is_dir ex_fs) (d_is_file ex_fs) (d_read_dir ex_fs) s_join s_parent s_file_name
                   s_ext_circom s_starts_dot s_has_sep (d_content ex_fs) 1000 1000 ex_pay ex_pragma ex_main (2, 1, 4) ex_cs ex_spay
-                  ex_ord ex_horder 7%Z 0 0 PM.d_pfile ex_argv [] s ex_pr ex_sd [] BadPragma (mkReport Error 1003 1003 [] 9) /\
-    failure_event (d_canon ex_fs) (d_is_dir ex_fs) (d_is_file ex_fs) (d_read_dir ex_fs) s_join s_parent s_file_name
+                  ex_ord ex_horder 7%Z 0 0 PM.d_pfile ex_argv [] ex_s ex_lib ex_defs_of ex_sd [] BadPragma (mkReport Error 1003 1003 [] 9) /\
+    failure_event_tied (d_canon ex_fs) (d_is_dir ex_fs) (d_is_file ex_fs) (d_read_dir ex_fs) s_join s_parent s_file_name
                   s_ext_circom s_starts_dot s_has_sep (d_content ex_fs) 1000 1000 ex_pay ex_pragma ex_main (2, 1, 4) ex_cs ex_spay
-                  ex_ord ex_horder 7%Z 0 0 PM.d_pfile ex_argv [] s ex_pr ex_sd [] SeveralMains (mkReport Error 1002 1002 [] 9) /\
-    failure_event (d_canon ex_fs) (d_is_dir ex_fs) (d_is_file ex_fs) (d_read_dir ex_fs) s_join s_parent s_file_name
+                  ex_ord ex_horder 7%Z 0 0 PM.d_pfile ex_argv [] ex_s ex_lib ex_defs_of ex_sd [] SeveralMains (mkReport Error 1002 1002 [] 9) /\
+    failure_event_tied (d_canon ex_fs) (d_is_dir ex_fs) (d_is_file ex_fs) (d_read_dir ex_fs) s_join s_parent s_file_name
                   s_ext_circom s_starts_dot s_has_sep (d_content ex_fs) 1000 1000 ex_pay ex_pragma ex_main (2, 1, 4) ex_cs ex_spay
-                  ex_ord ex_horder 7%Z 0 0 PM.d_pfile ex_argv [] s ex_pr ex_sd [] InvalidTupleOrAnonymous (mkReport Error 2002 2002 [1%Z] 9) /\
-    failure_event (d_canon ex_fs) (d_is_dir ex_fs) (d_is_file ex_fs) (d_read_dir ex_fs) s_join s_parent s_file_name
+                  ex_ord ex_horder 7%Z 0 0 PM.d_pfile ex_argv [] ex_s ex_lib ex_defs_of ex_sd [] InvalidTupleOrAnonymous (mkReport Error 2002 2002 [1%Z] 9) /\
+    failure_event_tied (d_canon ex_fs) (d_is_dir ex_fs) (d_is_file ex_fs) (d_read_dir ex_fs) s_join s_parent s_file_name
                   s_ext_circom s_starts_dot s_has_sep (d_content ex_fs) 1000 1000 ex_pay ex_pragma ex_main (2, 1, 4) ex_cs ex_spay
-                  ex_ord ex_horder 7%Z 0 0 PM.d_pfile ex_argv [] s ex_pr ex_sd [] DuplicateParameter (mkReport Error 3002 3002 [1%Z] 9) /\
-    failure_event (d_canon ex_fs) (d_is_dir ex_fs) (d_is_file ex_fs) (d_read_dir ex_fs) s_join s_parent s_file_name
+                  ex_ord ex_horder 7%Z 0 0 PM.d_pfile ex_argv [] ex_s ex_lib ex_defs_of ex_sd [] DuplicateParameter (mkReport Error 3002 3002 [1%Z] 9) /\
+    failure_event_tied (d_canon ex_fs) (d_is_dir ex_fs) (d_is_file ex_fs) (d_read_dir ex_fs) s_join s_parent s_file_name
                   s_ext_circom s_starts_dot s_has_sep (d_content ex_fs) 1000 1000 ex_pay ex_pragma ex_main (2, 1, 4) ex_cs ex_spay
-                  ex_ord ex_horder 7%Z 0 0 PM.d_pfile ex_argv [] s ex_pr ex_sd [] LiftFailure (mkReport Error 2003 2003 [1%Z] 9).
+                  ex_ord ex_horder 7%Z 0 0 PM.d_pfile ex_argv [] ex_s ex_lib ex_defs_of ex_sd [] LiftFailure (mkReport Error 2003 2003 [1%Z] 9) /\
+    failure_event_tied (d_canon ex_fs) (d_is_dir ex_fs) (d_is_file ex_fs) (d_read_dir ex_fs) s_join s_parent s_file_name
+                  s_ext_circom s_starts_dot s_has_sep (d_content ex_fs) 1000 1000 ex_pay ex_pragma ex_main (2, 1, 4) ex_cs ex_spay
+                  ex_ord ex_horder 7%Z 0 0 PM.d_pfile ex_argv [] ex_s ex_lib ex_defs_of ex_sd [] DuplicateDefinition (mkReport Error 4001 4001 [2%Z; 1%Z] 9).
 Proof.
   split; [vm_compute; reflexivity|].
-  eexists. split; [vm_compute; reflexivity|].
+  split; [vm_compute; reflexivity|].
+  split; [vm_compute; reflexivity|].
   assert (Hnamed : named (d_canon ex_fs) (d_is_dir ex_fs) (d_read_dir ex_fs) s_join s_ext_circom ex_argv (str "/r/a.circom")).
   { exists (str "a.circom"). split; [right; left|]. apply expands_file; reflexivity. }
   assert (Hbad : named (d_canon ex_fs) (d_is_dir ex_fs) (d_read_dir ex_fs) s_join s_ext_circom ex_argv (str "/r/bad.circom")).
   { exists (str "bad.circom"). split; [do 3 right; left|]. apply expands_file; reflexivity. }
   assert (Hb : named (d_canon ex_fs) (d_is_dir ex_fs) (d_read_dir ex_fs) s_join s_ext_circom ex_argv (str "/r/b.circom")).
   { exists (str "b.circom"). split; [left|]. apply expands_file; reflexivity. }
-  assert (Hfile1 : file_is_named (d_canon ex_fs) (d_is_dir ex_fs) (d_read_dir ex_fs) s_join s_ext_circom ex_argv
-                     {| ps_stack := FileStack (Some (str "/r")) [str "/r/b.circom"; str "/r/a.circom"; str "/r/bad.circom"]
-                                      [str "/r/bad.circom"; str "/r/a.circom"; str "/r/b.circom"] [] [];
-                        ps_files := [(str "/r/bad.circom", true); (str "/r/a.circom", true); (str "/r/b.circom", true)];
-                        ps_reports := [FileOsError (str "nosuch.circom"); ParsingError 0; IncludeError (str "x.circom") (Some 1) 21 40];
-                        ps_read := [str "/r/bad.circom"; str "/r/a.circom"; str "/r/b.circom"] |} 1%Z).
+  assert (Hfile1 : file_is_named (d_canon ex_fs) (d_is_dir ex_fs) (d_read_dir ex_fs) s_join s_ext_circom ex_argv ex_s 1%Z).
   { exists 1, (str "/r/a.circom"), true. split; [reflexivity|]. split; [reflexivity|exact Hnamed]. }
   split.
   { unfold wf_project. vm_compute. apply List.NoDup_cons; [intros [H|[]]; discriminate H|].
@@ -464,14 +552,71 @@ Proof.
     split; [intros H; vm_compute in H; discriminate H|].
     split; [by apply reach_named|]. split; [by apply reach_named|]. repeat split; reflexivity. }
   split.
-  { simpl. exists "T"%string, ex_T_body, 1%N, ex_r0. split; [left; split; [left; reflexivity|vm_compute; reflexivity]|].
+  { exists "T"%string, ex_T_body, 1%N, ex_r0. split; [left; split; [left; reflexivity|vm_compute; reflexivity]|].
     split; [unfold body_in_file; vm_compute; repeat constructor|]. split; [exact Hfile1|reflexivity]. }
   split.
-  { simpl. exists ex_f. split; [vm_compute; left; reflexivity|].
+  { exists ex_f. split; [vm_compute; left; reflexivity|].
     split; [exists 1%N; split; [reflexivity|exact Hfile1]|].
     split; [reflexivity|]. split; [|reflexivity].
     intros H. inversion H as [|x l Hx Hl]; subst. apply Hx. left. reflexivity. }
-  simpl. exists ex_g, LEUndefined. split; [vm_compute; right; left; reflexivity|].
-  split; [exists 1%N; split; [reflexivity|exact Hfile1]|].
-  split; [vm_compute; reflexivity|]. split; [discriminate|]. split; [right; reflexivity|reflexivity].
+  split.
+  { exists ex_g, LEUndefined. split; [vm_compute; right; left; reflexivity|].
+    split; [exists 1%N; split; [reflexivity|exact Hfile1]|].
+    split; [vm_compute; reflexivity|]. split; [discriminate|]. split; [right; reflexivity|reflexivity]. }
+  exists [], ex_T, [ex_f; ex_g], ex_T2, []. split; [vm_compute; reflexivity|]. split; [reflexivity|].
+  split; [intros x []|]. split; [left; exists 1%N; split; [reflexivity|exact Hfile1]|reflexivity].
+Qed.
+
+(* the hypotheses of C02_clean_only_if_every_definition_analysed (and of the
+   other two C02_clean_only_if_ theorems about a run) are satisfiable:
+   `circomspect c.circom` in /r, c.circom being `pragma circom 2.0.0; template
+   C() {} component main = C();`.  The run ends with exit status 0; the file
+   is named, parses, its definition C carries the file id 0 and its metas lie
+   in file 0; and the `analyzing` line of C is in the log *)
+Definition ex2_fs : fs_data := FsData
+  [ (str "c.circom", Some (str "/r/c.circom")); (str "/r/c.circom", Some (str "/r/c.circom")) ]
+  []
+  [ str "/r/c.circom" ]
+  [ (str "/r/c.circom", Parsed []) ].
+Definition ex2_argv : list spath := [ str "c.circom" ].
+Definition ex2_m : Ast.meta := Ast.Meta 0 1 (Some 0%N).
+Definition ex2_C : PM.definition := PM.Def "C" Ir.KTemplate [] (Some 0%N) (0%N, 0%N) (Ast.Block ex2_m []).
+Definition ex2_defs_of (p : spath) : list PM.definition := if decide (p = str "/r/c.circom") then [ex2_C] else [].
+Definition ex2_lib : list (list N) := [[0%N]].
+(* what the desugarer hands back for it (the two empty declaration blocks it puts in front) *)
+Definition ex2_sd : Desugar.desugared :=
+  Desugar.Desugared
+    [("C"%string, Ast.Block ex2_m [Ast.InitializationBlock ex2_m Ast.VVar []; Ast.InitializationBlock ex2_m Ast.VComponent []])]
+    [] [].
+
+Example C02_clean_run_satisfiable :
+  exists s, run_project false ex2_fs ex2_argv [] = Base.Ok s /\
+    sugar_input (program_of ex2_lib (all_definitions (d_content ex2_fs) ex2_defs_of (ps_files s))) = Desugar.DOk ex2_sd /\
+    wf_project (tied_project (d_content ex2_fs) ex_pragma ex_main (2, 1, 4) 1000 1000 ex_cs ex_spay ex_ord ex_horder 7%Z 0 0 PM.d_pfile ex_name2 ex_after ex_pay s ex2_lib ex2_defs_of ex2_sd []) /\
+    analysis_order (tied_project (d_content ex2_fs) ex_pragma ex_main (2, 1, 4) 1000 1000 ex_cs ex_spay ex_ord ex_horder 7%Z 0 0 PM.d_pfile ex_name2 ex_after ex_pay s ex2_lib ex2_defs_of ex2_sd []) [(KTemplate, 7%Z)] /\
+    res_exit (run_keys (tied_project (d_content ex2_fs) ex_pragma ex_main (2, 1, 4) 1000 1000 ex_cs ex_spay ex_ord ex_horder 7%Z 0 0 PM.d_pfile ex_name2 ex_after ex_pay s ex2_lib ex2_defs_of ex2_sd []) ex_opts [(KTemplate, 7%Z)]) = 0%Z /\
+    o_allow ex_opts = [] /\
+    defs_file_ok (d_content ex2_fs) s ex2_defs_of /\
+    bodies_in_file (d_content ex2_fs) s ex2_defs_of /\
+    ps_files s !! 0 = Some (str "/r/c.circom", true) /\
+    named (d_canon ex2_fs) (d_is_dir ex2_fs) (d_read_dir ex2_fs) s_join s_ext_circom ex2_argv (str "/r/c.circom") /\
+    parses (d_content ex2_fs) (str "/r/c.circom") = true /\
+    In ex2_C (ex2_defs_of (str "/r/c.circom")) /\
+    In (MAnalyzing (runner_kind (PM.d_kind ex2_C), ex_name2 (PM.d_name ex2_C)))
+       (res_log (run_keys (tied_project (d_content ex2_fs) ex_pragma ex_main (2, 1, 4) 1000 1000 ex_cs ex_spay ex_ord ex_horder 7%Z 0 0 PM.d_pfile ex_name2 ex_after ex_pay s ex2_lib ex2_defs_of ex2_sd []) ex_opts [(KTemplate, 7%Z)])).
+Proof.
+  eexists. split; [vm_compute; reflexivity|].
+  split; [vm_compute; reflexivity|].
+  split. { unfold wf_project. vm_compute. apply List.NoDup_cons; [intros []|apply List.NoDup_nil]. }
+  split. { vm_compute. apply Permutation_refl. }
+  split; [vm_compute; reflexivity|].
+  split; [reflexivity|].
+  split. { apply NoSilentMerger.defs_file_ok_decided. vm_compute. reflexivity. }
+  split. { intros d fid Hin Hpf. vm_compute in Hin. destruct Hin as [<-|[]]. inversion Hpf; subst.
+           unfold body_in_file. vm_compute. repeat constructor. }
+  split; [reflexivity|].
+  split. { exists (str "c.circom"). split; [left|]. apply expands_file; reflexivity. }
+  split; [reflexivity|].
+  split; [left; reflexivity|].
+  vm_compute. left. reflexivity.
 Qed.
